@@ -24,6 +24,7 @@ import (
 	"unicode"
 
 	"golang.org/x/crypto/openpgp"
+	"golang.org/x/crypto/openpgp/packet"
 
 	"perkeep.org/pkg/blob"
 	"perkeep.org/pkg/jsonsign"
@@ -126,7 +127,21 @@ func newWorld(repo, scratch string) *world {
 	copyFile(r1, filepath.Join(td, "test-secring.gpg"))
 	copyFile(r2, filepath.Join(td, "test-secring2.gpg"))
 	// a freshly generated identity, written and read back through perkeep's own key ring code
-	if _, err := jsonsign.GenerateNewSecRing(r3); err != nil {
+	// ... with a key size other than the 2048 bits of the test rings: the length of the signature packet (and with
+	// it the padding of its base64 armor) depends on it (3072 bits: "==", 4096 bits: no padding)
+	bits := []int{3072, 4096, 4096}[((freshBits%3)+3)%3]
+	ent, err := openpgp.NewEntity("verif", "fresh key", "verif@example.invalid", &packet.Config{RSABits: bits})
+	if err != nil {
+		fatal(err)
+	}
+	f3, err := os.OpenFile(r3, os.O_CREATE|os.O_WRONLY|os.O_TRUNC, 0600)
+	if err != nil {
+		fatal(err)
+	}
+	if err := jsonsign.WriteKeyRing(f3, openpgp.EntityList{ent}); err != nil {
+		fatal(err)
+	}
+	if err := f3.Close(); err != nil {
 		fatal(err)
 	}
 	wd := &world{k1: loadKey(r1, "26F5ABDA"), k2: loadKey(r2, ""), fresh: loadKey(r3, "")}
@@ -135,6 +150,9 @@ func newWorld(repo, scratch string) *world {
 }
 
 // ---------------------------------------------------------------- documents
+
+// freshBits selects the size of the generated key (set from the seed by main)
+var freshBits int
 
 // foldDecoy: the ref of ANOTHER key the signer also holds (set by main), used by the "signerfold" look-alikes
 var foldDecoy blob.Ref
@@ -611,6 +629,7 @@ func main() {
 		fatal(err)
 	}
 	defer os.RemoveAll(scratch)
+	freshBits = int(*seed)
 	wd := newWorld(*repo, scratch)
 	f, err := os.Create(*out)
 	if err != nil {
